@@ -46,9 +46,14 @@ TGetWriter(t) ==
 
 TWAdd(t) ==
   /\ pc[t] = "got" /\ WAdd(t)
-  /\ pc' = [pc EXCEPT ![t] = "done"]
+  /\ pc' = [pc EXCEPT ![t] = IF infl'[t].g = -2 THEN "retry" ELSE "done"]     \* refused by a closed writer: look up again
   /\ FlushMatches(t)
   /\ UNCHANGED <<pit, epc>>
+
+TRetry(t) ==
+  /\ pc[t] = "retry" /\ Retry(t)
+  /\ pc' = [pc EXCEPT ![t] = "got"]
+  /\ UNCHANGED <<l, pit, epc>>
 
 TAddRet ==
   /\ IsEvent("AddRet") /\ pc[Ev.t] = "done"
@@ -83,7 +88,7 @@ TReset ==
   /\ IsEvent("Reset")
   /\ cfg' = [size |-> Ev.cfg.size, delay |-> Ev.cfg.delay, latest |-> Ev.cfg.latest]
   /\ cur' = 0 /\ w' = <<>> /\ tg' = {} /\ infl' = [t \in Threads |-> Idle]
-  /\ nadd' = 0 /\ nend' = 0 /\ ref' = <<>>
+  /\ nadd' = 0 /\ nend' = 0 /\ ref' = <<>> /\ pclosed' = FALSE
   /\ step' = [act |-> "Init"]
   /\ pc' = [t \in Threads |-> "idle"] /\ pit' = [t \in Threads |-> NoItem] /\ epc' = EIdle
 
@@ -93,7 +98,7 @@ TraceInit ==
   /\ TLCSet(1, 0)
 TraceNext ==
   \/ TAddCall \/ TAddRet \/ TEndCall \/ TEnd \/ TEndRet \/ TTimerFire \/ TReset
-  \/ \E t \in Threads : TGetWriter(t) \/ TWAdd(t)
+  \/ \E t \in Threads : TGetWriter(t) \/ TWAdd(t) \/ TRetry(t)
 TraceSpec == TraceInit /\ [][TraceNext]_tvars
 
 \* high-water mark of the consumed prefix; -workers 1
@@ -103,5 +108,5 @@ TraceAccepted ==
   ELSE /\ PrintT(<<"TRACE-PREFIX", TLCGet(1), "of", Len(Trace)>>)
        /\ FALSE
 
-TraceView == <<cfg, cur, w, tg, infl, ref, l, pc, pit, epc>>
+TraceView == <<cfg, cur, w, tg, infl, pclosed, ref, l, pc, pit, epc>>
 =============================================================================
